@@ -377,6 +377,23 @@ public:
 		identifier::operator =(id);
 		return *this;
 	}
+	/* the name is copied by the identifier; `_post` is part of its storage and must not be copied on top of it */
+	inline item(const item &from) : reference<T>(from), identifier(from)
+	{ }
+	inline item &operator =(const item &from)
+	{
+		reference<T>::operator =(static_cast<const reference<T> &>(from));
+		identifier::operator =(static_cast<const identifier &>(from));
+		return *this;
+	}
+#if __cplusplus >= 201103L
+	inline item &operator =(item &&from)
+	{
+		reference<T>::operator =(static_cast<reference<T> &&>(from));
+		identifier::operator =(static_cast<const identifier &>(from));
+		return *this;
+	}
+#endif
 protected:
 	char _post[32 - sizeof(identifier) - sizeof(reference<T>)];
 };
